@@ -213,7 +213,15 @@ def check_real_fits(chk, rng, n):
         chk.evaluations += 1
         with warnings.catch_warnings():
             warnings.simplefilter("ignore")
-            res = optimize(scheme, verbose=False, raise_exception=True)
+            try:
+                res = optimize(scheme, verbose=False, raise_exception=True)
+            except RuntimeError as ex:
+                # scipy's nnls gives up with "Maximum number of iterations reached" on some well-posed matrices (upstream limit 3*n
+                # iterations); with raise_exception=True that propagates and there is no result whose statistics could be judged
+                if "Maximum number of iterations reached" in str(ex) and "_nnls" in str(ex.__traceback__ and __import__("traceback").extract_tb(ex.__traceback__)[-1].filename):
+                    chk.skip("real fit: scipy nnls did not converge (RuntimeError propagated, no result to judge)")
+                    continue
+                raise
         key_f = sorted(f"{k}={v}" for k, v in feats.items())
         rep = {"engine": "c13-fit", "features": feats}
         if not res.success:
